@@ -1,10 +1,10 @@
-SPECIFICATION Spec
+SPECIFICATION TraceSpec
 CONSTANTS
-  Regs <- MCRegs
-  TU = 1
-  TA = 3
-  MaxT = 4
+  Regs <- TraceRegs
+  TU = 600
+  TA = 21600
+  MaxT = 0
   ClearFirst = TRUE
-VIEW view
 INVARIANTS EveryAnnouncementAccepted DetectorOutlivesStation SessionMatchesRegistration ClearEmpties
+POSTCONDITION Post
 CHECK_DEADLOCK FALSE
